@@ -106,7 +106,9 @@ def _run(rm, pops, ratios, sel, before=None, option=None):
             calls.append(country_data["iso3"])
             return ratios[country_data["iso3"]], "stub", "result of " + country_data["iso3"]
     W = lambda: _World()
-    fake_pd = types.SimpleNamespace(read_csv=lambda *a, **k: _Table(rows), DataFrame=pd.DataFrame)
+    # the country table is a real pandas DataFrame (3 rows; the population cells hold the symbolic values), so that whatever the code does with the table
+    # (iterrows, merges, filters) runs for real
+    fake_pd = types.SimpleNamespace(read_csv=lambda *a, **k: pd.DataFrame(rows, dtype=object), DataFrame=pd.DataFrame)
     fake_gpd = types.SimpleNamespace(read_file=lambda *a, **k: W(), datasets=types.SimpleNamespace(get_path=lambda n: n))
     ident = lambda x, *a: x if isinstance(x, SymReal) else float(x)
     rnd = lambda x, n=None: x if isinstance(x, SymReal) else round(x, n)
